@@ -46,7 +46,7 @@ HIST_DEVS = {"MemoNumbersByUsedOnly", "RejectedSetHalfUpdates", "PadKeepsOldData
 # with a valid <<fft, cp>> that differs from most current ones), cp > fft, used = 0
 HIST_VALID = [(4, 1, 4), (8, 2, 4), (8, 3, 8), (4, 0, 2), (2, 2, 2)]
 HIST_BAD = [(8, 1, 3), (4, 2, 6), (8, 9, 4), (2, 1, 0)]
-ACTIONS = ["Construct", "SetParameters", "UseObj", "StartLive", "Start", "MapStar", "ParamStar", "Pad", "Map", "Ifft", "AddCP", "Loop", "Transmit", "Crop", "RemoveCP",
+ACTIONS = ["Construct", "SetParameters", "UseLive", "StartLive", "Start", "MapStar", "ParamStar", "Pad", "Map", "Ifft", "AddCP", "Loop", "Transmit", "Crop", "RemoveCP",
            "Fft", "Unmap", "Equalize"]
 TOL = 1e-9
 # 16+ JVMs run side by side (one TLC worker each): keep their GC / JIT helper threads from oversubscribing the cores
@@ -655,8 +655,8 @@ def plan(tier, seed):
            + configs_of([60], cps=lambda N: [0, 7, 60], us=lambda N: [2, 52, 60]))
     jobs.append({"label": "stars", "w": 1e12, "model": dict(mapffts=list(range(2, 65)), paramffts=[2, 3, 4, 6, 8], seed=seed)})
     if tier == "quick":
-        # every length and the complete unit basis of the data; loopback and three layouts (one of full memory)
-        add("data-sweep", pow2, 8, 2.0, lenmode="all", patmode="basis", ndense=1, laymode="three", block=False)
+        # every length and the complete unit basis of the data; loopback and the full-memory two-tap layout
+        add("data-sweep", pow2, 6, 2.0, lenmode="all", patmode="basis", ndense=1, laymode="one", block=False)
         # the complete unit basis of the taps (+ the three layouts), static and block-static, two lengths
         add("tap-sweep", pow2, 4, 1.0, cost_basis, lenmode="two", patmode="dense", ndense=1, laymode="basis", block=True)
         add("non-pow2", np2, 1, 1e6, lenmode="two", patmode="dense", ndense=1, laymode="three", block=True)
